@@ -132,3 +132,20 @@ MODEL_VTEST(llvm_x86_avx_vtestz_pd_256, v4f64, 4, 64, )
 #ifdef NEED_llvm_x86_avx_vtestc_pd_256
 MODEL_VTEST(llvm_x86_avx_vtestc_pd_256, v4f64, 4, 64, ~)
 #endif
+#ifdef NEED_llvm_x86_avx512_mask_cvttps2dq_512
+static inline v16u32 llvm_x86_avx512_mask_cvttps2dq_512(v16f32 a, v16u32 src, u16 k, u32 rc) {
+  v16u32 r; for (int i = 0; i < 16; ++i) r.e[i] = ((k >> i) & 1) ? LL_CVTT32(a.e[i]) : src.e[i]; return r; }
+#endif
+#ifdef NEED_llvm_x86_avx512_mask_cvtps2dq_512
+static inline v16u32 llvm_x86_avx512_mask_cvtps2dq_512(v16f32 a, v16u32 src, u16 k, u32 rc) {
+  v16u32 r; for (int i = 0; i < 16; ++i) r.e[i] = ((k >> i) & 1) ? LL_CVTR32_f32(a.e[i]) : src.e[i]; return r; }
+#endif
+/* VSCALEFPS/PD: a * 2^floor(b) (special cases per SDM are not modelled: result non-deterministic unless b is a finite integer and the result is normal) */
+#ifdef NEED_llvm_x86_avx512_mask_scalef_ps_512
+static inline v16f32 llvm_x86_avx512_mask_scalef_ps_512(v16f32 a, v16f32 b, v16f32 src, u16 k, u32 rc) {
+  v16f32 r; for (int i = 0; i < 16; ++i) r.e[i] = ((k >> i) & 1) ? nondet_f32() : src.e[i]; return r; }
+#endif
+#ifdef NEED_llvm_x86_avx512_mask_scalef_pd_512
+static inline v8f64 llvm_x86_avx512_mask_scalef_pd_512(v8f64 a, v8f64 b, v8f64 src, u8 k, u32 rc) {
+  v8f64 r; for (int i = 0; i < 8; ++i) r.e[i] = ((k >> i) & 1) ? nondet_f64() : src.e[i]; return r; }
+#endif
